@@ -68,6 +68,7 @@ func GenC12(seed uint64) *Plan {
 	addCol := func(n, t string) { d.Table.Columns = append(d.Table.Columns, model.Col{Name: n, Type: t}) }
 	logMode := g.chance(80)
 	nflt := 0
+	transferShape := false
 	if logMode {
 		ev := &model.Event{Name: g.pick(eventNames), Type: "event"}
 		types := []string{"address", "uint256", "uint64", "bytes32", "string", "address", "uint8"}
@@ -81,8 +82,27 @@ func GenC12(seed uint64) *Plan {
 		if g.chance(25) {
 			arrayAt = g.R.IntN(nin)
 		}
+		// the Transfer shape: an indexed input that is not stored, then an
+		// indexed address that is stored and filtered by whole addresses
+		transferShape = g.chance(15)
+		if transferShape {
+			arrayAt, withRef = -1, false
+		}
 		for i := 0; i < nin; i++ {
 			in := model.Input{Name: fmt.Sprintf("a%d", i), Type: g.pick(types), Column: fmt.Sprintf("c_a%d", i)}
+			if transferShape && i < 2 {
+				in.Type, in.Indexed = "address", true
+				nIdx++
+				if i == 0 {
+					in.Column = ""
+				} else {
+					in.Filter = &model.Filter{Op: g.pick([]string{"contains", "eq"}), Arg: []string{p.Content.Addrs[g.R.IntN(len(p.Content.Addrs))]}}
+					nflt++
+					addCol(in.Column, "bytea")
+				}
+				ev.Inputs = append(ev.Inputs, in)
+				continue
+			}
 			if i == arrayAt {
 				// a selected array with a filter on its elements: one row per
 				// element, each accepted or rejected on its own
@@ -166,6 +186,13 @@ func GenC12(seed uint64) *Plan {
 					nflt++
 				}
 			}
+			if in.Filter == nil && i < nin-1 && g.chance(30) {
+				// an input that is not stored (it still takes its place among
+				// the indexed inputs / in the data)
+				in.Column = ""
+				ev.Inputs = append(ev.Inputs, in)
+				continue
+			}
 			addCol(in.Column, ABIColType(in.Type))
 			ev.Inputs = append(ev.Inputs, in)
 		}
@@ -220,6 +247,9 @@ func GenC12(seed uint64) *Plan {
 	}
 	if g.chance(50) {
 		d.FilterAgg = g.pick([]string{"and", "or"})
+	}
+	if transferShape && nflt > 1 && g.chance(70) {
+		d.FilterAgg = "and"
 	}
 	p.Decls = append(p.Decls, d)
 	g.ensureEvents(p)
